@@ -200,6 +200,16 @@ class Lists(Part):
             pts = [[[rng.randrange(2), 0] for _ in range(dim)] for _ in range(rng.randint(2, 4))]
             ops = [{"op": "append", "p": rng.choice(pts)} for _ in range(rng.randint(3, 9))] + [{"op": "dedupe", "p": []}]
             cases.append({"kind": "beh", "dim": dim, "ops": ops, "cseed": rng.randrange(1 << 30)})
+        # candidate streams for generate(): matings whose two children coincide with each other (and with earlier offspring or not)
+        for _ in range(120 if ctx.quick else 2500):
+            dim = rng.randint(1, 3)
+            pts = [[[rng.randrange(2), rng.randrange(2)] for _ in range(dim)] for _ in range(rng.randint(3, 5))]
+            ops = []
+            for _ in range(rng.randint(2, 5)):
+                a = rng.choice(pts)
+                b = a if rng.random() < 0.4 else rng.choice(pts)
+                ops += [{"op": "offer", "p": a}, {"op": "offer", "p": b}]
+            cases.append({"kind": "beh", "dim": dim, "ops": ops, "cseed": rng.randrange(1 << 30)})
         return cases
 
     def run_case(self, ctx, case):
